@@ -22,7 +22,6 @@ read_uncommitted returns every data record below the high watermark; never a con
 (vf.scen_consumer.Model).  After the last poll position() has passed every batch the broker serves (so it never
 re-fetches what it filtered), and no Fetch position is answered with data more than twice.
 """
-import itertools
 
 from vf import conslogs, explore, scen_consumer
 from vf.runner import Acc
@@ -81,7 +80,7 @@ def l_params(entries, removed, emptied, isolation, codec=None):
     combos = combos_for(tl, isolation == "read_committed")
     p = {"logs": {"0": {"txn": [list(e) for e in entries], "removed": list(removed), "emptied": list(emptied)}},
          "isolation": isolation, "combos": combos, "program": [], "drain": False, "baseline": "net",
-         "fetch_cap": 40 * len(combos) + 100, "brokers": 1}
+         "fetch_cap": 12 * len(combos) + 60, "brokers": 1}
     if codec:
         p["codec"] = codec
     return p
